@@ -346,6 +346,14 @@ class Gen:
             o.append("  return r;")
             o.append("}")
             self.bytag_roots.append(li.ident)
+            # set_by_tag of every scalar-like field (same argument struct and same contract as r_<L>_set)
+            sm = [(i, m) for i, m in self.wire_members(li) if m["mkind"] == "field" and m["enc"].kind in ("scalar", "enum", "set")]
+            if sm:
+                o.append("void r_%s_set_bytag(const %s& v, SV_%s x) {" % (li.ident, li.cpp, li.ident))
+                for i, m in sm:
+                    o.append("  sbepp::set_by_tag<%s::%s>(v, make<decltype(v.%s())>(x.v%d, 0));" % (tag, m["name"], m["name"], i))
+                o.append("}")
+                self.set_bytag_roots = getattr(self, "set_bytag_roots", []) + [li.ident]
 
     # ------------------------------------------------------------------ const-correctness visible to overload resolution (C11)
     def emit_constness(self, o):
